@@ -297,3 +297,7 @@ def run(rep: Report, tier: str):
     check_dataflow(rep, sums)
     check_in_place(rep, sums)
     check_ast_fields(repo, rep, sums)
+    from .c09 import check_memo
+
+    rep.rule("C05.memo-alias", "PUT-family/MEMOIZE store the node on top of the stack under the VM's key and GETs push that very node (sharing through the memo)", 9)
+    check_memo(repo, rep, sums, RULE="C05.memo-alias")
